@@ -68,62 +68,108 @@ def decodeSlot (m : Nat) : Option Slot :=
   if m == 0 then some .empty else if m == 0x7f then some .tombstone
   else if m ≥ 128 then some (.full (m - 128)) else none
 
-/-- the meta bytes of all buckets -/
-def decodeMetaMap (ht : ByteArray) (n : Nat) : Except String (Array Slot) := do
-  if ht.size != (numMetaBytePages n + n) * PAGE then
-    throw s!"ht: file length {ht.size} != {(numMetaBytePages n + n) * PAGE}"
-  let mut out : Array Slot := Array.mkEmpty n
-  for i in [0:n] do
+/-! The checks below are written as structural recursions (not `for` loops) so that
+`Store/TableCheck.lean` can prove what an accepted table satisfies (`Probe.Inv`, `Probe.NoDup`). -/
+
+/-- `slots[b]`, `.empty` outside the table -/
+def slotOf (slots : Array Slot) (b : Nat) : Slot := (slots[b]?).getD .empty
+
+/-- meta bytes `i, i+1, …, i+fuel-1` appended to `out` -/
+def decodeSlotsGo (ht : ByteArray) : (fuel i : Nat) → Array Slot → Except String (Array Slot)
+  | 0, _, out => .ok out
+  | fuel + 1, i, out =>
     match decodeSlot (u8 ht i) with
-    | some s => out := out.push s
-    | none => throw s!"ht: meta byte {u8 ht i} of bucket {i} is neither empty, tombstone nor full"
-  -- the padding after the last bucket's meta byte is never written
+    | some s => decodeSlotsGo ht fuel (i + 1) (out.push s)
+    | none => .error s!"ht: meta byte {u8 ht i} of bucket {i} is neither empty, tombstone nor full"
+
+/-- the padding after the last bucket's meta byte is never written -/
+def paddingZero (ht : ByteArray) (n : Nat) : Except String Unit := do
   for i in [n:numMetaBytePages n * PAGE] do
     if u8 ht i != 0 then throw s!"ht: meta byte {i} beyond the last bucket is not zero"
-  pure out
+
+/-- the meta bytes of all buckets -/
+def decodeMetaMap (ht : ByteArray) (n : Nat) : Except String (Array Slot) :=
+  if ht.size != (numMetaBytePages n + n) * PAGE then
+    .error s!"ht: file length {ht.size} != {(numMetaBytePages n + n) * PAGE}"
+  else
+    match decodeSlotsGo ht n 0 (Array.mkEmpty n) with
+    | .error e => .error e
+    | .ok out =>
+      match paddingZero ht n with
+      | .error e => .error e
+      | .ok _ => .ok out
 
 structure TableStats where
   full : Nat
   tomb : Nat
   pages : Array MerklePage
 
-/-- does `target` lie on the probe sequence of `hash`, with no empty bucket before it -/
-def probeReaches (slots : Array Slot) (n hash target : Nat) : Except String Unit := do
-  let mut b := hash % n
-  let mut step := 0
-  -- triangular probing modulo n has period 2n
-  for _ in [0:2 * n + 1] do
-    b := (b + step) % n
-    step := step + 1
-    if b == target then return ()
-    if slots[b]! == .empty then throw s!"bucket {target}: empty bucket {b} earlier on its probe sequence"
-  throw s!"bucket {target} is not on the probe sequence of its page id"
+/-- the probe loop: `b`, `step` are the fields of `ProbeSequence` before the next look -/
+def probeReachesGo (slots : Array Slot) (n target : Nat) : (fuel b step : Nat) → Except String Unit
+  | 0, _, _ => .error s!"bucket {target} is not on the probe sequence of its page id"
+  | fuel + 1, b, step =>
+    let b' := (b + step) % n
+    if b' == target then .ok ()
+    else if slotOf slots b' == .empty then
+      .error s!"bucket {target}: empty bucket {b'} earlier on its probe sequence"
+    else probeReachesGo slots n target fuel b' (step + 1)
+
+/-- does `target` lie on the probe sequence of `hash`, with no empty bucket before it
+(triangular probing modulo n has period 2n: `2n + 1` looks suffice) -/
+def probeReaches (slots : Array Slot) (n hash target : Nat) : Except String Unit :=
+  probeReachesGo slots n target (2 * n + 1) (hash % n) 0
+
+/-- XXH3-64 (seeded) of the 32-byte big-endian encoding of a page-id label: `hash_raw_page_id` -/
+def hashLabel (seed label : Nat) : Nat := xxh3_32 (natToBytesBE label 32) 0 seed
+
+/-- full bucket `i` with meta tag `tag`: the data page's label decodes to a page id; the hash of the
+label bytes in the file is the hash of the label (as a number, re-encoded); the 7-bit tag matches;
+the bucket lies on the probe sequence of that hash with no empty bucket before it -/
+def checkBucket (ht : ByteArray) (slots : Array Slot) (n base seed i tag : Nat) : Except String MerklePage :=
+  match decodeMerklePage ht (base + i * PAGE) i with
+  | none => .error s!"ht: full bucket {i} holds a page whose label is not a page id"
+  | some pg =>
+    let h := xxh3_32 ht (base + i * PAGE + PAGE - 32) seed
+    if h != hashLabel seed pg.label then
+      .error s!"ht: bucket {i}: hash of the label bytes {h} != hash of the label {hashLabel seed pg.label}"
+    else if h / 2^57 != tag then .error s!"ht: bucket {i} tag {tag} != hash tag {h / 2^57}"
+    else
+      match probeReaches slots n h i with
+      | .error e => .error e
+      | .ok _ => .ok pg
+
+/-- buckets `i, …, i+fuel-1` -/
+def wfTableGo (ht : ByteArray) (slots : Array Slot) (n base seed : Nat) :
+    (fuel i : Nat) → Array MerklePage → Nat → Except String (Array MerklePage × Nat)
+  | 0, _, pages, tomb => .ok (pages, tomb)
+  | fuel + 1, i, pages, tomb =>
+    match slotOf slots i with
+    | .empty => wfTableGo ht slots n base seed fuel (i + 1) pages tomb
+    | .tombstone => wfTableGo ht slots n base seed fuel (i + 1) pages (tomb + 1)
+    | .full tag =>
+      match checkBucket ht slots n base seed i tag with
+      | .error e => .error e
+      | .ok pg => wfTableGo ht slots n base seed fuel (i + 1) (pages.push pg) tomb
+
+/-- the first element equal to its successor -/
+def firstAdjDup : List Nat → Option Nat
+  | a :: b :: r => if a == b then some a else firstAdjDup (b :: r)
+  | _ => none
 
 /-- every full bucket holds a page whose label decodes to a page id; no label twice; the bucket lies
 on the probe sequence of the label's hash with no empty bucket before it; the 7-bit tag matches. -/
-def wfTable (ht : ByteArray) (m : Meta) (seed : Nat) : Except String TableStats := do
+def wfTable (ht : ByteArray) (m : Meta) (seed : Nat) : Except String TableStats :=
   let n := m.bitboxNumPages
-  if n == 0 then throw "ht: zero buckets"
-  let slots ← decodeMetaMap ht n
-  let base := numMetaBytePages n * PAGE
-  let mut pages : Array MerklePage := #[]
-  let mut tomb := 0
-  for i in [0:n] do
-    match slots[i]! with
-    | .empty => pure ()
-    | .tombstone => tomb := tomb + 1
-    | .full tag =>
-      match decodeMerklePage ht (base + i * PAGE) i with
-      | none => throw s!"ht: full bucket {i} holds a page whose label is not a page id"
-      | some pg =>
-        let h := xxh3_32 ht (base + i * PAGE + PAGE - 32) seed
-        if h / 2^57 != tag then throw s!"ht: bucket {i} tag {tag} != hash tag {h / 2^57}"
-        probeReaches slots n h i
-        pages := pages.push pg
-  let labels := (pages.map (·.label)).qsort (· < ·)
-  for i in [1:labels.size] do
-    if labels[i - 1]! == labels[i]! then throw s!"ht: page id label {labels[i]!} stored twice"
-  pure { full := pages.size, tomb := tomb, pages := pages }
+  if n == 0 then .error "ht: zero buckets" else
+  match decodeMetaMap ht n with
+  | .error e => .error e
+  | .ok slots =>
+    match wfTableGo ht slots n (numMetaBytePages n * PAGE) seed n 0 #[] 0 with
+    | .error e => .error e
+    | .ok (pages, tomb) =>
+      match firstAdjDup ((pages.toList.map (·.label)).mergeSort (fun a b => decide (a ≤ b))) with
+      | some l => .error s!"ht: page id label {l} stored twice"
+      | none => .ok { full := pages.size, tomb := tomb, pages := pages }
 
 /-! ## write-ahead log -/
 
